@@ -119,6 +119,3 @@ func VerifPruneQuery(query *Query) *BloomQuery {
 func (b *BloomSearchEngine) VerifEvaluateBloomFilters(filters *BloomFilters, q *BloomQuery) bool {
 	return b.evaluateBloomFilters(filters.FieldBloomFilter, filters.TokenBloomFilter, filters.FieldTokenBloomFilter, q)
 }
-
-// VerifMaterializeRow is materializeRow.
-func VerifMaterializeRow(rowBytes []byte) (map[string]any, error) { return materializeRow(rowBytes) }
